@@ -143,6 +143,241 @@ pub(crate) mod verif_probe {
         out
     }
 
+    // ------------------------------------------------------------------------------------------------------------
+    // Reference PostgreSQL backend (the same protocol reference as /verif/checks/handle_env.py::MockPg), with a log of
+    // every request, the replies delivered for it and the ground truth *before* it was processed.
+    #[derive(Clone, Default)]
+    struct RefTruth { status: u8, copy_in: bool, dirty_set: bool, role_set: bool, sql_prepared: bool, named: usize, unsynced: bool }
+    struct RefReq { g: u64, conn: usize, phase: u8, bytes: Vec<u8>, delivered: Vec<Vec<u8>>, before: RefTruth, status_after: u8 }
+    #[derive(Default)]
+    struct RefLog { reqs: Vec<RefReq>, clock: u64, phase: u8, conns: usize }
+    type SharedLog = Arc<Mutex<RefLog>>;
+
+    fn hexs(b: &[u8]) -> String { b.iter().map(|x| format!("{:02x}", x)).collect() }
+    fn pmsg(code: u8, body: &[u8]) -> Vec<u8> { let mut o = vec![code]; o.extend_from_slice(&((body.len() as i32 + 4).to_be_bytes())); o.extend_from_slice(body); o }
+
+    async fn ref_postgres(listener: TcpListener, log: SharedLog, be: usize) {
+        loop {
+            let (mut sock, _) = match listener.accept().await { Ok(c) => c, Err(_) => return };
+            let conn = { let mut l = log.lock(); l.conns += 1; be * 100 + l.conns };
+            let log = log.clone();
+            tokio::spawn(async move {
+                let len = match sock.read_i32().await { Ok(l) => l, Err(_) => return };
+                let mut startup = vec![0u8; len as usize - 4];
+                if sock.read_exact(&mut startup).await.is_err() { return; }
+                let mut out = BytesMut::new();
+                out.put_u8(b'R'); out.put_i32(8); out.put_i32(0);
+                out.put(server_parameter_message("server_version", "14.0"));
+                out.put_u8(b'K'); out.put_i32(12); out.put_i32(conn as i32); out.put_i32(1234);
+                out.put(ready_for_query(false));
+                if sock.write_all(&out).await.is_err() { return; }
+                let mut t = RefTruth { status: b'I', ..RefTruth::default() };
+                let mut pending: Vec<Vec<u8>> = vec![];
+                let mut ignore_till_sync = false;
+                let mut nreq = 0usize;
+                loop {
+                    let code = match sock.read_u8().await { Ok(c) => c, Err(_) => return };
+                    let len = match sock.read_i32().await { Ok(l) => l, Err(_) => return };
+                    let mut body = vec![0u8; (len as usize).saturating_sub(4)];
+                    if sock.read_exact(&mut body).await.is_err() { return; }
+                    let before = t.clone();
+                    let mut bytes = vec![code]; bytes.extend_from_slice(&len.to_be_bytes()); bytes.extend_from_slice(&body);
+                    let mut deliver: Vec<Vec<u8>> = vec![];
+                    let n = nreq; nreq += 1;
+                    let tag = format!("b{}r{:03}", be % 10, n % 1000);
+                    let mut close = false;
+                    let mut handled = false;
+                    if t.copy_in {
+                        handled = true;
+                        match code {
+                            b'd' => {}
+                            b'c' => { t.copy_in = false; deliver.push(pmsg(b'C', b"COPY 1\0")); deliver.push(pmsg(b'Z', &[t.status])); }
+                            b'f' => { t.copy_in = false; if t.status != b'I' { t.status = b'E'; }
+                                      deliver.push(pmsg(b'E', b"SERROR\0C57014\0MCOPY failed\0\0")); deliver.push(pmsg(b'Z', &[t.status])); }
+                            _ => { t.copy_in = false; handled = false; }
+                        }
+                    }
+                    if !handled {
+                        match code {
+                            b'Q' => {
+                                let text = String::from_utf8_lossy(&body[..body.len().saturating_sub(1)]).to_string();
+                                let stmts: Vec<String> = text.split(';').map(|s| s.trim().to_string()).filter(|s| !s.is_empty()).collect();
+                                if stmts.is_empty() { deliver.push(pmsg(b'I', b"")); }
+                                let mut copy_started = false;
+                                for s in stmts {
+                                    let u = s.to_ascii_uppercase().split_whitespace().collect::<Vec<_>>().join(" ");
+                                    if t.status == b'E' && !["ROLLBACK", "ABORT", "COMMIT", "END"].contains(&u.as_str()) {
+                                        deliver.push(pmsg(b'E', b"SERROR\0C25P02\0Mcurrent transaction is aborted\0\0")); break;
+                                    }
+                                    if u == "BEGIN" || u == "START TRANSACTION" || u.starts_with("BEGIN ") { t.status = b'T'; deliver.push(pmsg(b'C', b"BEGIN\0")); }
+                                    else if u == "COMMIT" || u == "END" { let failed = t.status == b'E'; t.status = b'I';
+                                        deliver.push(pmsg(b'C', if failed { b"ROLLBACK\0" } else { b"COMMIT\0" })); }
+                                    else if u == "ROLLBACK" || u == "ABORT" { t.status = b'I'; deliver.push(pmsg(b'C', b"ROLLBACK\0")); }
+                                    else if u.starts_with("SET LOCAL") { deliver.push(pmsg(b'C', b"SET\0")); }
+                                    else if u.starts_with("SET ROLE") || u.starts_with("SET SESSION AUTHORIZATION") { t.role_set = true; deliver.push(pmsg(b'C', b"SET\0")); }
+                                    else if u.starts_with("SET ") { t.dirty_set = true; deliver.push(pmsg(b'C', b"SET\0")); }
+                                    else if u == "RESET ROLE" { t.role_set = false; deliver.push(pmsg(b'C', b"RESET\0")); }
+                                    else if u == "RESET ALL" { t.dirty_set = false; deliver.push(pmsg(b'C', b"RESET\0")); }
+                                    else if u == "DISCARD ALL" { t.dirty_set = false; t.role_set = false; t.sql_prepared = false; t.named = 0; deliver.push(pmsg(b'C', b"DISCARD ALL\0")); }
+                                    else if u == "DEALLOCATE ALL" { t.sql_prepared = false; t.named = 0; deliver.push(pmsg(b'C', b"DEALLOCATE ALL\0")); }
+                                    else if u.starts_with("PREPARE ") { t.sql_prepared = true; deliver.push(pmsg(b'C', b"PREPARE\0")); }
+                                    else if u.starts_with("COPY ") && u.contains("FROM STDIN") { t.copy_in = true; deliver.push(pmsg(b'G', b"\0\0\0")); copy_started = true; break; }
+                                    else if u.starts_with("COPY ") && u.contains("TO STDOUT") {
+                                        deliver.push(pmsg(b'H', b"\0\0\0")); deliver.push(pmsg(b'd', format!("{}\n", tag).as_bytes()));
+                                        deliver.push(pmsg(b'c', b"")); deliver.push(pmsg(b'C', b"COPY 1\0")); }
+                                    else if u.starts_with("ERROR") || u.contains("1/0") { if t.status != b'I' { t.status = b'E'; }
+                                        deliver.push(pmsg(b'E', b"SERROR\0C22012\0Mdivision by zero\0\0")); break; }
+                                    else {
+                                        let mut rd = vec![0u8, 1, b'c', 0]; rd.extend_from_slice(&0i32.to_be_bytes()); rd.extend_from_slice(&0i16.to_be_bytes());
+                                        rd.extend_from_slice(&25i32.to_be_bytes()); rd.extend_from_slice(&(-1i16).to_be_bytes()); rd.extend_from_slice(&(-1i32).to_be_bytes()); rd.extend_from_slice(&0i16.to_be_bytes());
+                                        deliver.push(pmsg(b'T', &rd));
+                                        let mut dr = vec![0u8, 1]; dr.extend_from_slice(&6i32.to_be_bytes()); dr.extend_from_slice(tag.as_bytes());
+                                        deliver.push(pmsg(b'D', &dr));
+                                        deliver.push(pmsg(b'C', b"SELECT 1\0"));
+                                    }
+                                }
+                                if !copy_started { deliver.push(pmsg(b'Z', &[t.status])); }
+                            }
+                            b'P' | b'B' | b'D' | b'E' | b'C' | b'H' => {
+                                t.unsynced = true;
+                                if !ignore_till_sync {
+                                    match code {
+                                        b'P' => { if body.first().copied().unwrap_or(0) != 0 { t.named += 1; } pending.push(pmsg(b'1', b"")); }
+                                        b'B' => pending.push(pmsg(b'2', b"")),
+                                        b'D' => pending.push(pmsg(b'n', b"")),
+                                        b'E' => { let mut dr = vec![0u8, 1]; dr.extend_from_slice(&6i32.to_be_bytes()); dr.extend_from_slice(tag.as_bytes());
+                                                  pending.push(pmsg(b'D', &dr)); pending.push(pmsg(b'C', b"SELECT 1\0")); }
+                                        b'C' => pending.push(pmsg(b'3', b"")),
+                                        _ => { deliver.append(&mut pending); }
+                                    }
+                                }
+                            }
+                            b'S' => { ignore_till_sync = false; t.unsynced = false; deliver.append(&mut pending); deliver.push(pmsg(b'Z', &[t.status])); }
+                            _ => { close = true; }
+                        }
+                    }
+                    {
+                        let mut l = log.lock();
+                        l.clock += 1;
+                        let (g, phase) = (l.clock, l.phase);
+                        l.reqs.push(RefReq { g, conn, phase, bytes, delivered: deliver.clone(), before, status_after: t.status });
+                    }
+                    let flat: Vec<u8> = deliver.concat();
+                    if !flat.is_empty() && sock.write_all(&flat).await.is_err() { return; }
+                    if close { return; }
+                }
+            });
+        }
+    }
+
+    async fn drain(stream: &mut DuplexStream, ms: u64) -> Vec<u8> {
+        let mut out = vec![];
+        let mut buf = [0u8; 4096];
+        loop {
+            match timeout(Duration::from_millis(ms), stream.read(&mut buf)).await {
+                Ok(Ok(0)) | Ok(Err(_)) | Err(_) => return out,
+                Ok(Ok(n)) => out.extend_from_slice(&buf[..n]),
+            }
+        }
+    }
+
+    /// Client A sends `client_hex` (optionally in `chunks_hex` with PAUSE/RESUME steps in between), then half-closes its
+    /// socket (`eof`); client B then runs one query.  Everything the reference backends saw is returned.
+    async fn handle_script(v: Value) -> Value {
+        let tag = format!("{}", std::time::SystemTime::now().duration_since(std::time::UNIX_EPOCH).unwrap().as_nanos());
+        let db = format!("verif_h_{}", tag);
+        let usern = "verif_user".to_string();
+        let log: SharedLog = Arc::new(Mutex::new(RefLog::default()));
+        let csmap: ClientServerMap = Arc::new(Mutex::new(HashMap::new()));
+        let roles: Vec<String> = v["roles"].as_array().map(|a| a.iter().map(|x| x.as_str().unwrap().to_string()).collect()).unwrap_or(vec!["primary".to_string()]);
+        let user = User { username: usern.clone(), password: None, auth_type: AuthType::Trust, pool_size: 1, ..User::default() };
+        let mut addrs = vec![]; let mut pools = vec![];
+        let cache_size = v["cache"].as_u64().unwrap_or(0) as usize;
+        let auth_hash = Arc::new(RwLock::new(None));
+        for (i, r) in roles.iter().enumerate() {
+            let listener = TcpListener::bind("127.0.0.1:0").await.unwrap();
+            let port = listener.local_addr().unwrap().port();
+            tokio::spawn(ref_postgres(listener, log.clone(), i));
+            let a = Address { id: i, host: "127.0.0.1".to_string(), port, address_index: i, replica_number: i, shard: 0,
+                              role: if r == "primary" { Role::Primary } else { Role::Replica },
+                              database: db.clone(), username: usern.clone(), pool_name: db.clone(), ..Address::default() };
+            let manager = ServerPool::new(a.clone(), user.clone(), &db, csmap.clone(), auth_hash.clone(), None, true, false, cache_size);
+            pools.push(Pool::builder().max_size(1).connection_timeout(std::time::Duration::from_millis(1500)).test_on_check_out(false).build_unchecked(manager));
+            addrs.push(a);
+        }
+        let session = v["mode"].as_str() == Some("session");
+        let mut settings = PoolSettings { pool_mode: if session { PoolMode::Session } else { PoolMode::Transaction }, user: user.clone(), db: db.clone(),
+                                          healthcheck_delay: 3_600_000, ..PoolSettings::default() };
+        if let Some(tables) = v["deny_tables"].as_array() {
+            settings.query_parser_enabled = true;
+            settings.plugins = Some(crate::config::Plugins { intercept: None, query_logger: None, prewarmer: None,
+                table_access: Some(crate::config::TableAccess { enabled: true, tables: tables.iter().map(|t| t.as_str().unwrap().to_string()).collect() }) });
+        }
+        if v["query_parser"].as_bool() == Some(true) { settings.query_parser_enabled = true; settings.query_parser_read_write_splitting = true; }
+        let pool = ConnectionPool {
+            databases: Arc::new(vec![pools]), addresses: Arc::new(vec![addrs]),
+            banlist: Arc::new(RwLock::new(vec![HashMap::new()])), config_hash: 0,
+            original_server_parameters: Arc::new(RwLock::new(ServerParameters::new())), auth_hash,
+            settings: Arc::new(settings), validated: Arc::new(AtomicBool::new(false)),
+            paused: Arc::new(AtomicBool::new(false)), paused_waiter: Arc::new(Notify::new()),
+            prepared_statement_cache: if cache_size > 0 { Some(Arc::new(Mutex::new(PreparedStatementCache::new(cache_size)))) } else { None },
+        };
+        {
+            let mut pools = (*(*POOLS.load())).clone();
+            pools.insert(PoolIdentifier::new(&db, &usern), pool.clone());
+            POOLS.store(Arc::new(pools));
+        }
+        let (shutdown_tx, _keep) = tokio::sync::broadcast::channel::<()>(1);
+        let (mut a, a_task) = connect_client(&db, &usern, csmap.clone(), &shutdown_tx);
+        if read_until_ready(&mut a).await.is_none() { return json!({"error": "client A could not log in"}); }
+        // forget what the backends saw during validation / startup
+        { let mut l = log.lock(); l.reqs.clear(); l.phase = 1; }
+        let mut a_out: Vec<u8> = vec![];
+        if let Some(steps) = v["steps"].as_array() {
+            for st in steps {
+                if let Some(h) = st["send_hex"].as_str() { let _ = a.write_all(&unhex(h)).await; a_out.extend(drain(&mut a, 150).await); }
+                else if st["pause"].as_bool() == Some(true) { pool.pause(); }
+                else if st["resume"].as_bool() == Some(true) { pool.resume(); }
+                else if st["shutdown"].as_bool() == Some(true) { let _ = shutdown_tx.send(()); a_out.extend(drain(&mut a, 150).await); }
+            }
+        } else {
+            let _ = a.write_all(&unhex(v["client_hex"].as_str().unwrap_or(""))).await;
+        }
+        a_out.extend(drain(&mut a, 250).await);
+        if v["eof"].as_bool().unwrap_or(true) { { log.lock().phase = 3; } let _ = a.shutdown().await; }
+        let a_task_result;
+        let mut a_task = a_task;
+        loop {
+            a_out.extend(drain(&mut a, 200).await);
+            match timeout(Duration::from_millis(50), &mut a_task).await {
+                Ok(Ok(Ok(()))) => { a_task_result = "ok".to_string(); break; }
+                Ok(Ok(Err(e))) => { a_task_result = format!("err: {:?}", e); break; }
+                Ok(Err(e)) => { a_task_result = if e.is_panic() { "panic".to_string() } else { "cancelled".to_string() }; break; }
+                Err(_) => { if !v["eof"].as_bool().unwrap_or(true) { a_task_result = "still-running".to_string(); break; } }
+            }
+        }
+        a_out.extend(drain(&mut a, 100).await);
+        let paused_at_end = pool.paused();
+        let mut b_out: Vec<u8> = vec![];
+        let mut b_state = "not-run".to_string();
+        if v["probe_b"].as_bool().unwrap_or(true) && !paused_at_end {
+            { log.lock().phase = 2; }
+            let (mut b, _b_task) = connect_client(&db, &usern, csmap.clone(), &shutdown_tx);
+            if read_until_ready(&mut b).await.is_none() { b_state = "login failed".to_string(); }
+            else {
+                let _ = b.write_all(&simple_query("SELECT 1")).await;
+                b_out = drain(&mut b, 400).await;
+                b_state = "ran".to_string();
+            }
+        }
+        let l = log.lock();
+        let reqs: Vec<Value> = l.reqs.iter().map(|r| json!({"g": r.g, "conn": r.conn, "phase": r.phase, "hex": hexs(&r.bytes),
+            "delivered": r.delivered.iter().map(|d| hexs(d)).collect::<Vec<_>>(), "status_after": r.status_after,
+            "before": {"status": r.before.status, "copy_in": r.before.copy_in, "dirty_set": r.before.dirty_set, "role_set": r.before.role_set,
+                       "sql_prepared": r.before.sql_prepared, "named": r.before.named, "unsynced": r.before.unsynced}})).collect();
+        json!({"a_result": a_task_result, "a_out": hexs(&a_out), "b_out": hexs(&b_out), "b_state": b_state, "reqs": reqs, "paused_at_end": paused_at_end})
+    }
+
     /// Client A runs `prep` queries (simple protocol), then sends the raw `trigger` bytes and is awaited;
     /// client B then runs SELECT and reports what it saw.
     async fn scenario(v: Value) -> Value {
@@ -502,6 +737,12 @@ pub(crate) mod verif_probe {
                 let t = v["target"].as_u64().unwrap() as usize;
                 let r = rt.block_on(pool.try_unban(&addrs[t]));
                 Some(json!({"result": r, "banned": banned_ids(&pool)}))
+            }
+            "handle_script" => {
+                let rt = tokio::runtime::Builder::new_multi_thread().worker_threads(2).enable_all().build().unwrap();
+                let vv = v.clone();
+                let r = rt.block_on(async move { timeout(Duration::from_secs(40), handle_script(vv)).await });
+                Some(match r { Ok(x) => x, Err(_) => json!({"error": "scenario timed out"}) })
             }
             "e2e_handover" => {
                 let rt = tokio::runtime::Builder::new_multi_thread().worker_threads(2).enable_all().build().unwrap();
